@@ -163,8 +163,8 @@ let int_line (s : st) =
       Printf.sprintf "%d:%d:%d:%d:%d:%s:%d:%d:%d:%d:%d:%s" (int_of_n f.f_id) (int_of_n f.f_vol) (int_of_n f.f_cur_off) (int_of_n f.f_cur_cluster)
         (int_of_n f.f_offset) (mode_str f.f_mode) (int_of_n f.f_entry.e_size) (int_of_n f.f_entry.e_cluster) (if f.f_dirty then 1 else 0)
         (int_of_n f.f_entry.e_block) (int_of_n f.f_entry.e_offset) (ts_str f.f_entry.e_mtime)) s.s_files) in
-  Printf.sprintf "id=%d vols=[%s] dirs=[%s] files=[%s] tag=%s cache=%d" (int_of_n s.s_next_id) vols dirs files (opt_str s.s_tag)
-    (hash_bytes (ints_of_block s.s_cache))
+  Printf.sprintf "id=%d vols=[%s] dirs=[%s] files=[%s] tag=%s cache=%d clk=%d" (int_of_n s.s_next_id) vols dirs files (opt_str s.s_tag)
+    (hash_bytes (ints_of_block s.s_cache)) (int_of_n s.s_clock)
 
 let print_dev n (calls : devcall list) =
   List.iter (function
